@@ -2,7 +2,7 @@ from checks import pipeseq as ps
 from checks import C06
 
 CLAIM = {
-    "text": "Bounded model checking of real pipes (idem, skip, setflowdef, probe_uref, null, queue sink + queue source; upipe_helper_urefcount / helper_output / "
+    "text": "Bounded model checking of real pipes (idem, skip, setflowdef, probe_uref, null, queue sink + queue source, aggregate [through C14's harness: units handed downstream are neither touched nor delivered again]; upipe_helper_urefcount / helper_output / "
             "helper_void as expanded in each) over the real uref_std, udict_inline, ubuf_block_mem and umem_alloc managers with their "
             "reference counting ENABLED (pool depth 0: every free is a real free, so CBMC's memory model is an exact oracle): for every "
             "sequence of up to 3 API calls (set_flow_def x3 kinds, set_output S0/S1/NULL, input, flush, sink refusing/accepting) followed "
@@ -45,9 +45,14 @@ def build(tier):
         qsched += C06.schedules([10, 0, 2, 2, 11, 10, 4], C06.BURSTS[:3], 1) + C06.schedules(C06.SCRIPTS["stream"], C06.BURSTS[:3], 1)
     for i, ops in enumerate(qsched):
         qs.append(C06.q("queue_%s" % "-".join(map(str, ops)), ops, 1, timeout=280 if quick else 900, replay=(i % 10 == 1)))
+    # aggregate (harness/C14_rechunk.c, leak check + pointer checks): the pipe keeps a pointer to the unit being built and hands
+    # it downstream on overflow -- a unit given away must not be touched or delivered again
+    from checks import C14
+    aggq = [q for q in C14.build(tier)[0] if q.name.startswith("agg_")]
+    qs += aggq if not quick else [q for q in aggq if any(x in q.name for x in ("cut2-3-1", "cut3-3", "cut1-203", "cut1-1-4", "cut4-2"))]
     seen = set()
     qs = [q for q in qs if not (q.name in seen or seen.add(q.name))]
-    meta = {"bounds": {"pipes": sorted({ps.PIPES[p] for p, _ in plan} | {"queue sink + queue source"}), "sequence_length": 3 if quick else 4, "sequences": len(qs),
+    meta = {"bounds": {"pipes": sorted({ps.PIPES[p] for p, _ in plan} | {"queue sink + queue source", "aggregate"}), "sequence_length": 3 if quick else 4, "sequences": len(qs),
                        "pool_depth": 0},
             "exhaustive": True,
             "rule": "every call sequence of the stated length over the stated alphabet is one query, always followed by release of everything",
